@@ -223,6 +223,36 @@ public final class HdwPrims {
         return tupleOfInts(s.codePoints().toArray());
     }
 
+    // NormForm("NFD" | "NFC" | "NFKD" | "NFKC", cps)
+    @TLAPlusOperator(identifier = "NormForm", module = "Prim", warn = false)
+    public static Value normForm(final Value form, final Value cps) {
+        int[] c = intsOf(cps);
+        Normalizer.Form f = Normalizer.Form.valueOf(((StringValue) form).val.toString());
+        String s = Normalizer.normalize(new String(c, 0, c.length), f);
+        return tupleOfInts(s.codePoints().toArray());
+    }
+
+    // CpClass(cp): the general category class of a code point in the JDK's Unicode version
+    @TLAPlusOperator(identifier = "CpClass", module = "Prim", warn = false)
+    public static Value cpClass(final Value cp) {
+        int c = ((IntValue) cp).val;
+        String r;
+        if (c < 0 || c > 0x10FFFF) {
+            r = "none";
+        } else {
+            switch (Character.getType(c)) {
+                case Character.UNASSIGNED: r = "unassigned"; break;
+                case Character.SURROGATE: r = "surrogate"; break;
+                case Character.PRIVATE_USE: r = "private"; break;
+                case Character.NON_SPACING_MARK:
+                case Character.COMBINING_SPACING_MARK:
+                case Character.ENCLOSING_MARK: r = "mark"; break;
+                default: r = "other";
+            }
+        }
+        return new StringValue(r);
+    }
+
     // ------------------------------------------------------------------ big integers (byte sequences, big-endian)
 
     static BigInteger big(Value v) {
